@@ -31,7 +31,7 @@ def nontrivial(ln):
         return i >= 0 and any(c in s[i + 3:] for c in b":/?[")
     if cmd == "uinto":
         return True
-    if cmd == "uhostunix":
+    if cmd in ("uhostunix", "uunix"):
         return b"%" in G.untok(t[-1])
     if cmd == "unew":
         return b"://" in G.untok(t[-1])
@@ -191,6 +191,12 @@ def check_case(cx, ln, mo, co, spec):
                 cx.bad("coap_uri_into_optlist: options out of order, duplicated Uri-Host/Uri-Port, "
                        "or a dot segment emitted", ln, mo, co)
                 return
+    elif cmd == "uunix":
+        want = "max=%s rc=1 path=%s" % (t[1], G.tok(G.ref_unix_path(G.untok(t[2]), int(t[1]))))
+        if co != want:
+            cx.bad("coap_address_set_unix_domain: sun_path is not the host with its complete %2F "
+                   "escapes decoded (or COAP_UNIX_PATH_MAX changed)", ln, mo, co, "expected: %s\n" % want)
+            return
     elif cmd == "uhostunix":
         h = G.untok(t[1])
         want = "unix=%d" % int(h[:3] in (b"%2F", b"%2f") or h[:1] == b"/")
@@ -380,6 +386,21 @@ def main(run):
         hostend.append("uhostunix " + G.tok(s))
         if caps == "11111" and s:
             hostend.append("uinto 1 - " + G.tok(b"coap://" + s))
+    # coap_address_set_unix_domain on exact-size Unix-domain hosts (asan traps a read past "%2")
+    _, pmo, _ = vlib.run_lines(drv, [], ["uunixmax"])
+    pmax = int(pmo[0])
+    run.cov["COAP_UNIX_PATH_MAX"] = pmax
+    UH = [b"%2Ftmp%2Fa%2", b"%2Ftmp%2Fa%2Fb", b"%2F%", b"%2Fx%2", b"%2F", b"%2f", b"%2", b"%", b"/tmp/x",
+          b"%2Fa%2fb%2Fc", b"%2F%2F%2F", b"%2F%41", b"%2F%2e", b"%2Fa%00b", b"%2F" + b"a" * 21, b"%2F" + b"a" * 22,
+          b"%2F" + b"a" * 23, b"%2F" + b"a" * 24, b"%2F" + b"a" * 25, b"%2F" + b"a" * 40, b"%2F" * 25, b"%2F" * 26,
+          b"%2F" * 27, b"a" * 24 + b"%2F", b"a" * 24 + b"%2", b"a" * 25 + b"%2F", b"a" * 23 + b"%2F%2", b""]
+    for h in UH:
+        hostend.append("uunix %d %s" % (pmax, G.tok(h)))
+    for s in G.all_strings(4, b"a%2Ff/"):
+        hostend.append("uunix %d %s" % (pmax, G.tok(b"%2F" + s)))
+        if len(s) <= 3:
+            hostend.append("uunix %d %s" % (pmax, G.tok(s)))
+            hostend.append("uunix %d %s" % (pmax, G.tok(b"a" * (pmax - 4) + s)))
     base_lines += hostend
     asan_lines += hostend
     run.cov["host_at_end_cases"] = len(hostend)
